@@ -45,8 +45,13 @@ class Overlay:
         return cls
 
     def literals(self, t):
+        """literal pieces of the strings *joined onto layer paths* on the way to t (not of error messages a helper may also build)"""
         own = lambda b: bool(b.impl) and b.impl["self_ty"] == self.w.overlay
-        return literal_pieces(self.inter.inline_ret(t, depth=3, pred=own))
+        out = []
+        for x in walk(self.inter.inline_ret(t, depth=3, pred=own)):
+            if x[0] == "call" and isinstance(x[1], str) and sname(x[1]) == "join" and len(x[2]) >= 2:
+                out.extend(literal_pieces(x[2][1]))
+        return out
 
     def is_marker(self, t):
         """an upper-layer path built with a literal component (the whiteout namespace)"""
